@@ -104,6 +104,8 @@ def cfg_wire(c):
 
 
 def scenario_wire(sc):
+    for fl in all_field_lists(sc):
+        leaves_in_order(fl)      # normalises nil marks of nested pointer structs
     return {"cfg": cfg_wire(sc["cfg"]), "hasdata": sc["data"] is not None,
             "data": [field_wire(f) for f in (sc["data"] or [])],
             "attach": [attach_wire(a) for a in sc["attach"]],
@@ -183,21 +185,23 @@ def op_coq(o):
     raise ValueError(o)
 
 
-def leaves_in_order(fields, under=None, out=None, unders=None):
-    """(fid, type) in declaration order; unders: list of (fid, sid) for leaves below a nil pointer struct"""
+def leaves_in_order(fields, under=(), out=None, unders=None):
+    """(fid, type, exported) in declaration order; unders: (fid, sid) for every nil pointer struct above a leaf.
+    A pointer struct below a nil pointer struct is itself nil in the implementation (nothing allocated it)."""
     if out is None: out = []
     if unders is None: unders = []
     for f in fields:
         if "struct" in f:
             s = f["struct"]
             u = under
-            if s["ptr"] and s["nil"] and under is None:
-                u = s["sid"]
+            if s["ptr"] and (s["nil"] or under):
+                s["nil"] = True
+                u = under + (s["sid"],)
             leaves_in_order(s["fields"], u, out, unders)
         else:
             out.append((f["fid"], f["type"], f["exported"]))
-            if under is not None:
-                unders.append((f["fid"], under))
+            for sid in under:
+                unders.append((f["fid"], sid))
     return out, unders
 
 
